@@ -218,11 +218,39 @@ def string_abstract(t):
 
 
 _len_terms = {}
+_stru_consts = {}
+_stru_literals = {}
+_StrU = None
+_lenU = None
+
+
+def _stru():
+    global _StrU, _lenU
+    if _StrU is None:
+        _StrU = z3.DeclareSort("StrU")
+        _lenU = z3.Function("lenU", _StrU, z3.IntSort())
+    return _StrU, _lenU
+
+
+def abstraction_axioms():
+    """facts about the abstraction symbols: lengths are non-negative, distinct literals are distinct"""
+    out = []
+    sort, lenU = _stru()
+    for c in _stru_consts.values():
+        out.append(lenU(c) >= 0)
+    lits = list(_stru_literals.items())
+    if len(lits) > 1:
+        out.append(z3.Distinct(*[c for _, c in lits]))
+    for text, c in lits:
+        out.append(lenU(c) == len(text))
+    return out
 
 
 def _abstract_atom(t, k):
-    """an atom that mentions strings: keep it if the only string subterms are lengths (replaced by non-negative
-    integer constants), otherwise replace it by a Boolean constant"""
+    """An atom that mentions strings.  Maximal string-sorted subterms become constants of an uninterpreted sort
+    (equality and length stay meaningful: congruence, transitivity, distinct literals, length arithmetic); any other
+    string predicate (prefix, contains, regex membership, order) becomes a Boolean constant."""
+    sort, lenU = _stru()
     subs = []
     stack = [t]
     seen = set()
@@ -232,16 +260,61 @@ def _abstract_atom(t, k):
         if i in seen:
             continue
         seen.add(i)
-        if z3.is_app_of(e, z3.Z3_OP_SEQ_LENGTH):
-            c = _len_terms.get(i)
-            if c is None:
-                c = z3.Int("len!%d" % i)
-                _len_terms[i] = c
+        if z3.is_expr(e) and e.sort().kind() == z3.Z3_SEQ_SORT:
+            if z3.is_string_value(e):
+                text = e.as_string()
+                c = _stru_literals.get(text)
+                if c is None:
+                    c = z3.Const("strlit!%d" % len(_stru_literals), sort)
+                    _stru_literals[text] = c
+                    _stru_consts["lit:" + text] = c
+            else:
+                c = _stru_consts.get(i)
+                if c is None:
+                    c = z3.Const("stru!%d" % i, sort)
+                    _stru_consts[i] = c
             subs.append((e, c))
-            continue
+            continue        # do not descend into a string term
         stack.extend(e.children())
-    if subs:
-        t2 = z3.substitute(t, *subs)
+    if not subs:
+        return z3.Bool("atom!%d" % k)
+    # only equalities between strings and length terms can be expressed over the uninterpreted sort
+    kind = t.decl().kind() if z3.is_app(t) else None
+    try:
+        if kind == z3.Z3_OP_EQ and t.arg(0).sort().kind() == z3.Z3_SEQ_SORT:
+            m = dict((a.get_id(), b) for a, b in subs)
+            return m[t.arg(0).get_id()] == m[t.arg(1).get_id()]
+        if kind == z3.Z3_OP_DISTINCT and t.arg(0).sort().kind() == z3.Z3_SEQ_SORT:
+            m = dict((a.get_id(), b) for a, b in subs)
+            return z3.Distinct(*[m[c.get_id()] for c in t.children()])
+    except KeyError:
+        return z3.Bool("atom!%d" % k)
+    # arithmetic atom over lengths: replace Length(x) by lenU(stru(x))
+    lsubs = []
+    stack = [t]
+    seen = set()
+    ok = True
+    while stack:
+        e = stack.pop()
+        i = e.get_id()
+        if i in seen:
+            continue
+        seen.add(i)
+        if z3.is_app_of(e, z3.Z3_OP_SEQ_LENGTH):
+            arg = e.arg(0)
+            m = dict((a.get_id(), b) for a, b in subs)
+            c = m.get(arg.get_id())
+            if c is None:
+                ok = False
+                break
+            lsubs.append((e, lenU(c)))
+            continue
+        if z3.is_expr(e) and e.sort().kind() in (z3.Z3_SEQ_SORT, z3.Z3_RE_SORT):
+            ok = False
+            break
+        stack.extend(e.children())
+    if ok and lsubs:
+        t2 = z3.substitute(t, *lsubs)
         if not has_string_terms(t2):
             return t2
     return z3.Bool("atom!%d" % k)
@@ -454,8 +527,8 @@ class Engine:
                 s.add(string_abstract(c))
             for c in cs:
                 s.add(string_abstract(c))
-            for c in _len_terms.values():
-                s.add(c >= 0)
+            for c in abstraction_axioms():
+                s.add(c)
         r = s.check()
         self.stats["feas_checks"] += 1
         self.stats["feas_time"] += time.time() - t0
